@@ -133,12 +133,15 @@ class C43(Check):
         "parsec_mca_device_registration_complete. The model is sequential in tasks (data_in = host copy, reference count of "
         "copies not modelled); pipelines of several tasks, w2r write-back tasks (unreachable on the unchanged tree, finding "
         "dirty-full-livelock), prefetch, batching, PTG-generated code and real hardware streams are outside the model and are "
-        "only exercised by the value oracle. On the unchanged tree the check reports 5 known classes of failing inputs "
+        "only exercised by the value oracle. The 'ptg' mode (harness builds the task itself and forwards the writer's device copy "
+        "as data_in, GPUDefs.prun) is tied by the same state diff but carries no theorem. On the unchanged tree the check reports 5 known classes of failing inputs "
         "(notes/findings/C43-*.md) until they are listed in KNOWN_FINDINGS.txt.")
     technique = ("Coq proof (invariants of the executable device-memory model) + differential run of the real device_gpu.c, "
                  "driven by a mock device module through real DTD tasks, against the extracted model; sequential value oracle")
     rule = ("task sequences <= 40 tasks over <= 8 tiles on 1-2 mock devices of 2-6 tiles: 'safe' streams obey the "
-            "through-the-host discipline (read-mostly and write-heavy), 'wild' streams only the DTD contract, directed corpus for "
+            "through-the-host discipline (read-mostly and write-heavy), 'wild' streams only the DTD contract, a 'ptg' family "
+            "(no DTD: the writer's dirty device copy is forwarded, read device-to-device, then its device's clean list is walked), "
+            "directed corpus for "
             "each refutation witness; non-trivial = at least one device task needing an eviction or a transfer decision "
             "(more distinct data on a device than cap, or a datum touched by two places)")
     trusted = ("mock device module (harness/h_gpu.c): host-memory zone, deferred copy/kernel queues executed when the runtime "
@@ -261,6 +264,59 @@ class C43(Check):
         h = {"mode": "seq", "ngpu": ngpu, "cap": cap, "nd": nd, "delay": 0, "batch": 1, "direct": 0}
         return case_txt(h, tasks)
 
+    def gen_d2d(self, r):
+        """'ptg' mode (the writer's device copy is the input of the next users, as PTG forwards it): hot tiles are written
+        on a device WITHOUT pushout, read on the other device (device-to-device copy sourced from the dirty OWNED copy),
+        then enough read-only cold tiles go through the writer's device to walk its whole clean list, then the hot
+        tile is used again; every hot tile is finally pushed out.  The dirty copy must stay off the clean list."""
+        cap = r.range(3, 5)
+        nhot = r.range(1, min(2, cap - 2))
+        ncold = r.range(cap, min(cap + 2, 8 - nhot))
+        nd = nhot + ncold
+        cold = list(range(nhot, nd))
+        home = {z: 1 + r.below(2) for z in range(nhot)}
+        dirty = {1: 0, 2: 0}
+        tasks = []
+        for z in range(nhot):
+            tasks.append((home[z], [(z, r.pick(["x", "w"]), False)]))
+            dirty[home[z]] += 1
+
+        def pressure(dev):
+            room = max(1, cap - dirty[dev])
+            todo = r.shuffle(cold)[:r.range(cap, len(cold))]
+            while todo:
+                k = min(len(todo), r.range(1, min(2, room)))
+                tasks.append((dev, [(d, "r", False) for d in todo[:k]]))
+                todo = todo[k:]
+
+        for _ in range(r.range(2, 4)):
+            z = r.below(nhot)
+            a = home[z]
+            b = 3 - a
+            fl = [(z, "r", False)]
+            if r.chance(1, 2) and cap - dirty[b] >= 2:
+                fl.append((r.pick(cold), "r", False))
+            tasks.append((b, r.shuffle(fl)))
+            if r.chance(1, 3):
+                tasks.append((b, [(z, "r", False)]))
+            pressure(a)
+            if r.chance(1, 2):
+                pressure(b)
+            kind = r.below(4)
+            if kind == 0:
+                tasks.append((a, [(z, "r", False)]))
+            elif kind == 1:
+                tasks.append((b, [(z, "r", False)]))
+            elif kind == 2:
+                tasks.append((a, [(z, "x", False)]))
+            else:
+                tasks.append((a, [(z, "r", False)]))
+                tasks.append((b, [(z, "r", False)]))
+        for z in range(nhot):
+            tasks.append((home[z], [(z, "x", True)]))
+        h = {"mode": "ptg", "ngpu": 2, "cap": cap, "nd": nd, "delay": r.pick([0, 0, 2]), "batch": 1, "direct": 0}
+        return case_txt(h, tasks)
+
     def cases(self):
         r = self.rng
         q = self.tier == "quick"
@@ -271,6 +327,8 @@ class C43(Check):
             out.append(self.gen_safe(r, "par"))
         for _ in range(30 if q else 500):
             out.append(self.gen_wild(r))
+        for _ in range(30 if q else 400):
+            out.append(self.gen_d2d(r))
         return out
 
     def nontrivial_key(self, case):
@@ -306,7 +364,7 @@ class C43(Check):
                 if p:
                     per.setdefault(p, set()).update(d for d, _, _ in fl)
             evict += 1 if any(len(s) > h["cap"] for s in per.values()) else 0
-        return {"cases_seq": n["seq"], "cases_par": n["par"], "tasks": ntask, "device_tasks": ndev,
+        return {"cases_seq": n["seq"], "cases_par": n["par"], "cases_ptg": n.get("ptg", 0), "tasks": ntask, "device_tasks": ndev,
                 "cases_with_memory_pressure": evict}
 
     # ------------------------------------------------------------------ oracle (from the property statement)
@@ -368,7 +426,7 @@ class C43(Check):
                 return ("after the flush tile %d holds %s on the host, the last writer left %d" % (d, v, mems[-1][d]),
                         len(tasks), d, "final")
         # seq mode: the newest version of every tile is held by some copy after every task
-        if h["mode"] == "seq":
+        if h["mode"] in ("seq", "ptg"):
             segs = obs.split(";")
             for tid in range(min(len(tasks), len(segs) - 1)):
                 for d in range(h["nd"]):
@@ -394,6 +452,22 @@ class C43(Check):
             return "none"
         h, tasks = parse_case(case)
         why, tid, d, kind = v
+        if h["mode"] == "ptg":
+            # the harness forwards the writer's device copy (no DTD): none of the DTD classes applies
+            if d is not None:
+                hist = []
+                for p, fl in tasks[:max(tid, 0)] if tid < len(tasks) else tasks:
+                    for dd, mo, po in fl:
+                        if dd == d:
+                            hist = [] if (mo != "r" and po) else hist + [(p, mo)]
+                wr = [p for p, mo in hist if mo != "r"]
+                if wr:
+                    after = hist[max(i for i, (p, mo) in enumerate(hist) if mo != "r") + 1:]
+                    if any(p != wr[-1] for p, mo in after):
+                        return "owned-d2d-source-evicted"      # the dirty copy was the source of a device-to-device read
+                    if after:
+                        return "owned-copy-read-then-evicted"  # it was read on its own device (forwarded copy: no demotion)
+            return "ptg-" + kind
         if kind == "hang":
             return "dirty-full-livelock" if not through_host(h, tasks) else "disciplined-hang"
         if through_host(h, tasks):
